@@ -5,6 +5,7 @@ package main
 
 import (
 	"fmt"
+	"math"
 	"math/big"
 )
 
@@ -43,6 +44,34 @@ func sqrtCase(c *Ctx, xo *Opnd, x *Dec, prec uint32, mode uint8, pre int) {
 	}
 }
 
+// sqrtInPlaceCase: z.Sqrt(z) — the receiver is the operand, held in a tight buffer, with accuracy != Exact,
+// or in a buffer with spare capacity (as left by earlier arithmetic). Requires minPrec(x) <= prec.
+func sqrtInPlaceCase(c *Ctx, xo *Opnd, prec uint32, mode uint8) {
+	if xo.Form == fFinite && minPrecWords(xo.Words) > int64(prec) {
+		return
+	}
+	for v := 0; v < numRecvVariants; v++ {
+		if c.Skip() {
+			continue
+		}
+		a := *xo
+		a.Prec, a.Mode = prec, mode
+		z := a.buildVariant(v)
+		exp := ModelSqrt(xo.V, prec, mode)
+		pv, isNaN := protect(func() { z.Sqrt(z) })
+		o := Observe(z)
+		key := func() string {
+			return fmt.Sprintf("z.Sqrt(z) z=%s prec=%d mode=%s recv-variant=%d", xo, prec, modeName(mode), v)
+		}
+		c.NonTrivial()
+		if msg := judgeFull(o, pv, isNaN, exp, false); msg != "" {
+			c.Fail(key(), msg)
+		} else if pv == nil && (o.Prec != prec || o.Mode != mode) {
+			c.Fail(key(), fmt.Sprintf("receiver attributes changed: %s", o))
+		}
+	}
+}
+
 func sqrtLayers(tier string) []Layer {
 	thorough := tier == "thorough"
 	var layers []Layer
@@ -57,7 +86,7 @@ func sqrtLayers(tier string) []Layer {
 		layers = append(layers, Layer{
 			Name:   "Q1-digits",
 			Units:  len(coefs),
-			Bounds: fmt.Sprintf("x = c×10^e, c in D(%d), e in -3..2 (both exponent parities, negative exponents), x.prec in {digits, 34}, x.mode = (mode+1)%%6, receiver prec %v, 6 modes", k, allPrecs),
+			Bounds: fmt.Sprintf("x = c×10^e, c in D(%d), e in -3..2 (both exponent parities, negative exponents), x.prec in {digits, 34}, x.mode = (mode+1)%%6, receiver prec %v, 6 modes; for a quarter of the values also in place (z.Sqrt(z)) with the receiver in a tight buffer / inexact / with spare capacity", k, allPrecs),
 			Run: func(c *Ctx, u int) {
 				for e := int64(-3); e <= 2; e++ {
 					for _, xp := range []uint32{0, 34} {
@@ -72,6 +101,11 @@ func sqrtLayers(tier string) []Layer {
 							x := xo.Build()
 							for _, p := range allPrecs {
 								sqrtCase(c, xo, x, p, m, preFresh)
+							}
+							if xp == 0 && u%4 == int(e+3)%4 {
+								for _, p := range []uint32{5, 16, 19, 20} {
+									sqrtInPlaceCase(c, xo, p, m) // z.Sqrt(z)
+								}
 							}
 						}
 					}
@@ -201,6 +235,46 @@ func sqrtLayers(tier string) []Layer {
 			},
 		})
 	}
+	// Q6: precisions above 1200 digits (64+ word working mantissas) with x a hair below / above a perfect square
+	{
+		type q6 struct {
+			prec uint32
+			k    int
+		}
+		var units []q6
+		for _, p := range []uint32{1197, 1250} {
+			for _, k := range []int{int(p) + 2, 2*int(p) + 3, 3 * int(p), 3*int(p) + 4, 3*int(p) + 10, 4 * int(p)} {
+				units = append(units, q6{p, k})
+			}
+		}
+		layers = append(layers, Layer{
+			Name:   "Q6-huge-precision-near-squares",
+			Units:  len(units),
+			Bounds: "receiver precision {1197, 1250} (working mantissa ≥ 64 words); x = r² ∓ 10^−k for r in {2, 3.5, 0.999…9 (prec digits)}, k in {p+2, 2p+3, 3p, 3p+4, 3p+10, 4p}; 6 modes",
+			Run: func(c *Ctx, u int) {
+				t := units[u]
+				roots := []*big.Int{big.NewInt(2), big.NewInt(35), new(big.Int).Sub(p10(int64(t.prec)), big1)}
+				rexp := []int64{0, -1, -int64(t.prec)}
+				for ri, r := range roots {
+					sq := new(big.Int).Mul(r, r) // × 10^(2·rexp)
+					for _, sgn := range []int64{-1, 1} {
+						// x = sq·10^(2e) + sgn·10^(−k)  =  (sq·10^(2e+k) + sgn) · 10^(−k)
+						sh := int64(t.k) + 2*rexp[ri]
+						if sh < 0 {
+							continue
+						}
+						xi := new(big.Int).Mul(sq, p10(sh))
+						xi.Add(xi, big.NewInt(sgn))
+						xo := mkCoef(false, xi, -int64(t.k), uint32(ndigits(xi)), ToNearestAway)
+						x := xo.Build()
+						for _, m := range M6 {
+							sqrtCase(c, xo, x, t.prec, m, preFresh)
+						}
+					}
+				}
+			},
+		})
+	}
 	// Q4: specials and range ends
 	{
 		var xs []*Opnd
@@ -210,6 +284,12 @@ func sqrtLayers(tier string) []Layer {
 			}
 		}
 		xs = append(xs, staleSpecials(5, ToNearestAway)...)
+		// operands whose precision attribute is at the top of the range (working precisions derived from x.prec must not wrap)
+		for _, cf := range []int64{2, 4, 25, 30} {
+			for _, hp := range []uint32{math.MaxUint32, math.MaxUint32 - 1, 1 << 31} {
+				xs = append(xs, mkInt64(cf, -1, hp, ToZero))
+			}
+		}
 		xs = append(xs, mkInt64(-4, 0, 5, 0), mkInt64(-1, -30, 5, 0))
 		for _, e := range []int64{MinExp, MinExp + 1, MinExp + 2, MaxExp, MaxExp - 1} {
 			for _, cf := range []int64{1, 4, 9, 16, 2, 99, 25} {
